@@ -187,13 +187,16 @@ def nontrivial(done):
 
 
 # ------------------------------------------------------------------ C01-C04
-def run_equivalence(prop, tier, backend_runs, pops, per_pop, profiles=("release",), adjudicate_max=3000):
+def run_equivalence(prop, tier, backend_runs, pops, per_pop, profiles=("release",), adjudicate_max=3000,
+                    before=None):
     """Run cases whose canonical run is short on the given configurations,
     validate every distinct recording with TLC."""
     rep = Report(prop, "model_checking", tier)
     sd = seed()
     pops, per_pop = dev_pops(pops, per_pop)
     bins = build_harness(tuple(set(profiles) | {"release"}))
+    if before and not os.environ.get("VERIF_CASES"):
+        before(rep, tier)
     cases = override_cases() or population(bins["release"], tier, sd, pops, per_pop)
     rep.count("cases_generated", len(cases))
     judged = []
@@ -230,12 +233,52 @@ def run_equivalence(prop, tier, backend_runs, pops, per_pop, profiles=("release"
     return rep.finish()
 
 
+def design_check_bf(rep, tier):
+    """MCBF.tla: the canonical machine itself is model checked on every balanced
+    program up to a length bound x tiny and real widths x inputs x fault plans."""
+    from . import tlc
+    from .common import workdir, NCPU
+    exhaustive_cases(6000 if tier == "quick" else 60000)        # fills the cache through BFGen.tla
+    L = 4 if tier == "quick" else 5
+    progs, _ = _E_CACHE[L]
+    cases = []
+    plans = [(-1, -1, 0, 0), (0, -1, 0, 0), (1, -1, 0, 0), (-1, 0, 0, 0), (-1, 1, 0, 0), (-1, -1, 1, 0), (-1, -1, 0, 1)]
+    k = 0
+    for p in progs:
+        for w in (1, 2, 8):
+            for inp in ([[], [1]] if "," in p else [[]]):
+                for (of, inf, ia, oa) in plans:
+                    if of >= 0 and "." not in p:
+                        continue
+                    if (inf >= 0 or ia) and "," not in p:
+                        continue
+                    if oa and "." not in p:
+                        continue
+                    k += 1
+                    cases.append({"id": "mc%d" % k, "prog": list(p), "w": w, "input": inp, "outFail": of,
+                                  "inFail": inf, "inAbsent": ia, "outAbsent": oa, "inSilent": 0})
+    path = os.path.join(workdir("MCBF"), "cases.ndjson")
+    tlc.write_ndjson(path, cases)
+    res = tlc.run_tlc("MCBF", env={"CASES": path, "MAXSTEPS": 120, "MAXEV": 40}, workers=max(2, NCPU - 2),
+                      timeout=3000, allow_violation=True)
+    rep.add_tlc(res)
+    rep.coverage["oracle_design_check"] = {
+        "module": "MCBF.tla", "programs": len(progs), "max_program_length": L, "cases": len(cases),
+        "widths": [1, 2, 8], "distinct_states": res.distinct,
+        "checked": ["TypeOK", "JumpsMatch (against an independent depth-counting definition)", "HistoryOK", "DivSound",
+                    "CountsOK", "Deterministic (exactly one action enabled)", "Terminal", "Grows", "CommentNoop",
+                    "TapeOnlyByIncDecIn", "StopIsFinal", "FaultStopsInPlace"]}
+    if res.violated:
+        raise ToolError("MCBF: the canonical machine violates its own design property %s\n%s" % (
+            res.violated, res.raw_tail))
+
+
 def c04(tier):
     per = {"E": 6000, "rnd": 1200, "S": 1200, "T": 300, "R": 300, "M": 600} if tier == "quick" else \
           {"E": 300000, "rnd": 20000, "S": 20000, "T": 3000, "R": 400, "M": 8000, "N": 2000}
     return run_equivalence("C04", tier, lambda c: [{"backend": "inplace", "level": 0}],
                            ["E", "rnd", "S", "T", "R", "M", "N"], per,
-                           adjudicate_max=6000 if tier == "quick" else 400000)
+                           adjudicate_max=6000 if tier == "quick" else 400000, before=design_check_bf)
 
 
 def c01(tier):
